@@ -320,6 +320,27 @@ def probe_params(rnd, thorough):
                     "dask": rnd.random() < 0.15, "rate": rnd.randrange(len(sl.RATES)), "unit": rnd.randrange(len(FUNITS)),
                     "pick": rnd.randrange(1 << 30), "again": i % 2 == 1,
                     "layout": rnd.choice(sl.LAYOUTS), "chunks": rnd.randrange(5)})
+    return out + anchor_probes(thorough)
+
+
+def anchor_probes(thorough):
+    """seed-independent part of the probe set: at the largest length, complex64 and complex128, NumPy and Dask,
+    shifts with a large accumulated phase (|df|/fs*N of hundreds to thousands of cycles, non-integer bin offsets,
+    either sign), observed at the END of the signal where the mixing phase is largest"""
+    out = []
+    for N in ([4096, 16384] + ([65536] if thorough else [])):
+        for kind in ("c8", "c16"):
+            for dask in (False, True):
+                for ssh, shsh, A in (((1,), (), [N / 4 + 0.37]), ((2,), (2,), [-(N / 3 + 0.61), N / 2 - 0.25]),
+                                     ((2, 2), (2, 1), [N / 5 + 0.5, -(0.45 * N + 0.13)])):
+                    nel = int(np.prod(ssh))
+                    out.append({"N": N, "ssh": list(ssh), "shsh": list(shsh), "A": [float(a) for a in A], "kind": kind,
+                                "probe": "impulse", "pos": [N - 1 - 3 * j for j in range(nel)], "dask": dask, "rate": 1,
+                                "unit": 0, "pick": 12345 + N, "again": False, "layout": "C", "chunks": 0})
+                # whole-bin move of a tone over a large part of the band: every sample carries the mixing phase
+                out.append({"N": N, "ssh": [1], "shsh": [], "A": [float(N // 2 - 7)], "kind": kind, "probe": "tone",
+                            "pos": [-(N // 4)], "dask": dask, "rate": 4, "unit": 2, "pick": 777 + N, "again": False,
+                            "layout": "C", "chunks": 0})
     return out
 
 
